@@ -437,7 +437,7 @@ pub fn run_c16(ctx: &Ctx) -> ! {
     let mut rep = Report::new(
         ctx,
         "exploration",
-        "complete finite domains: all 65 536 16-bit codes through StatusCode::from_u16 / IppHeader::status_code / is_success - the header-level decoding for protocol versions {1.1, 1.0, 2.0, 2.1, 2.2, 0.0, 3.0, ff.ff} x request-id {1, 0, 2^32-1}, on headers built in memory and on parsed responses - and through Operation::from_u16; all 256 bytes through DelimiterTag::from_u8 and ValueTag::from_u8; i32 -1..=300 through PrinterState, JobState, Orientation, PrintQuality, Finishings; IppValue::to_tag of each kind; against registry tables typed in from RFC 8010/8011, PWG 5100.1 and the CUPS specification (identifier names compared after normalisation). distinct = (table, code); non-trivial = code present in the registry",
+        "complete finite domains: all 65 536 16-bit codes through StatusCode::from_u16 / IppHeader::status_code / is_success - the header-level decoding for protocol versions {1.1, 1.0, 2.0, 2.1, 2.2, 0.0, 3.0, ff.ff} x request-id {1, 0, 2^32-1}, on headers built in memory and on parsed responses - and through Operation::from_u16; all 256 bytes through DelimiterTag::from_u8 and ValueTag::from_u8; i32 -1..=300 through PrinterState, JobState, Orientation, PrintQuality, Finishings; IppValue::to_tag of each kind; against registry tables typed in from RFC 8010/8011, PWG 5100.1 and the CUPS specification (identifier names compared after normalisation); and the success classification as the repository's command-line tool reports it: ipputil print against a loopback printer answering Print-Job with 825 status codes (0-2, every code of 0x0100-0x03ff, all named errors, far codes), exit status 0 <=> successful. distinct = (table, code); non-trivial = code present in the registry",
     );
     rep.assume("registry tables R2 in vmc::registry were typed in correctly from the RFCs");
     let mut st = Stats::new();
@@ -575,11 +575,35 @@ pub fn run_c16(ctx: &Ctx) -> ! {
         }
     }
     st.traces = st.evaluations;
+    // the same classification as the repository's command-line tool reports it: `ipputil print` against a loopback
+    // printer that answers Print-Job with every status code of a sweep (0-2, EVERY code of 0x0100-0x03ff, all named
+    // errors, far codes); exit status 0 <=> successful (network engine, child process)
+    let cli = cli_child(ctx);
     st.states.extend(st.nontrivial.iter().copied());
     st.sample(3, || json!({"table": "status", "code": "0x0401", "registry": "client-error-forbidden", "library": format!("{:?}", StatusCode::from_u16(0x0401))}));
     st.sample(3, || json!({"table": "finishings", "code": 85, "library": format!("{:?}", Finishings::from_i32(85))}));
-    rep.absorb(st);
+    rep.section("library-tables", st);
+    rep.section("command-line-tool-success-classification", cli);
     rep.finish()
+}
+
+fn cli_child(ctx: &Ctx) -> Stats {
+    let exe = ctx.verif_dir.join("target/release/hnet-native");
+    let out = match std::process::Command::new(&exe).arg("C16").arg("--tier").arg(if ctx.tier == vmc::report::Tier::Thorough { "thorough" } else { "quick" }).output() {
+        Ok(o) => o,
+        Err(e) => {
+            eprintln!("MACHINERY-ERROR cannot run {:?}: {}", exe, e);
+            std::process::exit(2)
+        }
+    };
+    let text = String::from_utf8_lossy(&out.stdout).to_string();
+    match text.lines().find(|l| l.starts_with("CLI-REPORT ")) {
+        Some(line) => Stats::from_json(&serde_json::from_str(&line["CLI-REPORT ".len()..]).unwrap_or(Json::Null)),
+        None => {
+            eprintln!("MACHINERY-ERROR {:?} C16 produced no report: {} {}", exe, text, String::from_utf8_lossy(&out.stderr));
+            std::process::exit(2)
+        }
+    }
 }
 
 #[allow(dead_code)]
